@@ -201,6 +201,11 @@ class Program:
                 if re.search(r"\b" + re.escape(ty) + r"\b", sig) or not p0:
                     good.append(n)
             if len(good) > 1:
+                # an inherent method and a trait method with the same body (e.g. Block::index and <Block as Vertex>::index)
+                bodies = {"\n".join(self.raw[n][0][3]) for n in good}
+                if len(bodies) == 1:
+                    return good[0]
+            if len(good) > 1:
                 # parameterless constructors: decide by the return type
                 exact = [n for n in good if re.search(r"\b" + re.escape(ty) + r"\b", self.raw[n][0][2])]
                 if len(exact) == 1:
